@@ -63,9 +63,9 @@ class Violation(Exception):
 
 
 class Harness(object):
-    def __init__(self, db, counters):
+    def __init__(self, db, counters, identdb=None):
         (self.ident, self.NameID, self.PERS, self.TRANS, self.NameIDPolicy, self.NewID) = _imports()
-        self.db = self.ident.IdentDB(db, name_qualifier=NQ)
+        self.db = identdb if identdb is not None else self.ident.IdentDB(db, name_qualifier=NQ)
         self.m = Model()
         self.c = counters
         self.trace = []
@@ -319,6 +319,10 @@ def gen_cases(tier, seed):
     for k in range(nrand):
         cases.append({"id": "random-%s-%d" % ("shelve" if k % 4 == 3 else "dict", k), "sig": ["random", k % 4 == 3, k], "kind": "random",
                       "backend": "shelve" if k % 4 == 3 else "dict", "len": 200 if tier == "quick" else 2000, "k": k})
+    # the subject database as an IdP has it: configured by path (subject_data), opened by Server, closed and opened again by the next Server
+    for k in range(4 if tier == "quick" else 24):
+        cases.append({"id": "random-server-shelve-%d" % k, "sig": ["random-server-shelve", k], "kind": "random", "backend": "server-shelve",
+                      "len": 120 if tier == "quick" else 1200, "k": k, "restart_every": [1, 7, 25, 60][k % 4]})
     for k in range(8 if tier == "quick" else 32):
         cases.append({"id": "codec-%d" % k, "sig": ["codec", k], "kind": "codec", "k": k, "n": 2000 if tier == "quick" else 20000})
     for k in range(4 if tier == "quick" else 16):
@@ -339,10 +343,33 @@ def run_case(case, ctx):
         if budget[0] <= 0:
             counters["budget_exhausted"] = 1
     elif kind == "random":
-        path = os.path.join(ctx.scratch, "identdb-%s" % case["id"]) if case["backend"] == "shelve" else {}
-        h = Harness(path, counters)
+        path = os.path.join(ctx.scratch, "identdb-%s" % case["id"]) if case["backend"] in ("shelve", "server-shelve") else {}
+        srv = None
+
+        def new_server():
+            from vlib import fed
+            idc = fed.idp_conf(subject_data=path)
+            return fed.make_idp(idc, [fed.metadata_of(fed.sp_conf())])
+        if case["backend"] == "server-shelve":
+            srv = new_server()
+            srv.ident.name_qualifier = NQ
+            h = Harness(None, counters, identdb=srv.ident)
+        else:
+            h = Harness(path, counters)
         try:
             for i in range(case["len"]):
+                if srv is not None and i and i % case["restart_every"] == 0:
+                    # the IdP process ends and a new one starts on the same subject database
+                    srv.close()
+                    srv = new_server()
+                    srv.ident.name_qualifier = NQ
+                    h.db = srv.ident
+                    counters["server_restarts"] = counters.get("server_restarts", 0) + 1
+                    try:
+                        h.check()
+                    except Violation as v:
+                        raise Violation(v.key, "after the IdP was closed and a new Server opened the same subject database (restart %d, %d operations): %s" % (
+                            counters["server_restarts"], i, v.what))
                 ops = alphabet(h, SPS_WIDE)
                 # bias towards growth early, removal later
                 op = rng.choice(ops)
@@ -356,6 +383,12 @@ def run_case(case, ctx):
             viols.append({"key": v.key, "what": v.what, "detail": {"history": h.trace[-12:]}})
         finally:
             h.db.close()
+            if isinstance(path, str):
+                for ext in ("", ".db", ".dat", ".dir", ".bak"):
+                    try:
+                        os.unlink(path + ext)
+                    except OSError:
+                        pass
     elif kind == "codec":
         ident, NameID = _imports()[:2]
         seen = {}
